@@ -215,5 +215,8 @@ func spec_itemPre(g *Grammar, r int, d int, n int) string { panic("spec") }
 //@ before_stmt [C09,C01,C02,C06] "g.ComputeIClosure(ExistIC)" item.inIC(ExistIC, adv(it)) || (len(ExistIC.Items) > 0 && *ExistIC.Items[len(ExistIC.Items)-1] == adv(it))
 //@ before_stmt [C09,C01,C02,C06] "g.ComputeIClosure(newIC)" item.inIC(newIC, adv(it)) && len(newIC.Items) == 1 && *newIC.Items[0] == adv(it)
 //@ before_stmt [C09,C01,C02,C06] "change += IC.InsertGoTO(newGoto)" newGoto.Sym == sy && newGoto.ItemCl == -1 && newGoto.ICref == newIC && item.inIC(newIC, adv(it))
+// after each item the pending target on its symbol is closed and in canonical order again (CheckIsExist compares position by position)
+//@ loop 0: end_of_body [C09,C01,C02,C06] it.Dot < len(g.ProductoinRules[it.RuleIndex].RighPart) && IC.GoToMap[dotSym(g, it)] != nil && IC.GoToMap[dotSym(g, it)].ItemCl == -1 ==>
+//@     sortedIC(IC.GoToMap[dotSym(g, it)].ICref) && closedIC(g, IC.GoToMap[dotSym(g, it)].ICref)
 //@ loop 1: end_of_body [C09,C01,C02,C06] IC.GoTo[idx1].ICref == nil && 0 <= IC.GoTo[idx1].ItemCl && IC.GoTo[idx1].ItemCl < len(g.LR0.LR0Closure) &&
 //@     lr.sameItems(g.LR0.LR0Closure[IC.GoTo[idx1].ItemCl], at_head(IC.GoTo[idx1].ICref))
